@@ -1,7 +1,223 @@
 import AmqModel.Model.Api
+import AmqModel.Props.C02
+import AmqModel.Lemmas.Api
+/-!
+# C12 — every API call emits exactly the AMQP method its arguments describe
+(and the publish part of C02: what a publish submits, frame by frame)
+-/
 namespace AmqModel.Props.C12
 open AmqModel.Api
 
-theorem placeholder : (newChan 1 4096).id = 1 := rfl
+/-- Unfold `run` for the operation at hand (I/O thread alive) and simplify with the hypotheses. -/
+local macro "alive_simp" "[" ts:Lean.Parser.Tactic.simpLemma,* "]" : tactic => `(tactic| (
+  (try simp only [run_publish, run_queueDeclare, run_queueDeclareNowait, run_queueDeclarePassive, run_get,
+    run_consume, run_queuePurge_wait, run_queueDelete_wait, run_exchangeDeclare,
+    run_exchangeDeclareNowait, run_exchangeDeclarePassive]);
+  simp_all [run, call_alive, callNowait_alive, handleSend_alive, submitAll_alive,
+    handleRecv_eq, mQueueDeclare, mExchangeDeclare, $ts,*]))
+
+/-- The same with the I/O thread gone and nothing queued. -/
+local macro "gone_simp" "[" ts:Lean.Parser.Tactic.simpLemma,* "]" : tactic => `(tactic| (
+  (try simp only [run_publish, run_queueDeclare, run_queueDeclareNowait, run_queueDeclarePassive, run_get,
+    run_consume, run_queuePurge_wait, run_queueDelete_wait, run_exchangeDeclare,
+    run_exchangeDeclareNowait, run_exchangeDeclarePassive]);
+  simp_all [run, call_gone_empty, callNowait_gone_empty, handleSend_gone_empty, $ts,*]))
+
+/-- THE EXPECTATION TABLE, written from the AMQP 0-9-1 field lists and amiquip's documentation,
+    independently of `Api.run`: the one method each operation must put on the wire (class id,
+    method id, fields in wire order).  `none` = the operation submits no method (listener
+    registration). -/
+def specMethod : Op → Option (Nat × Nat × List AField)
+  | .qos ps pc g => some (60, 10, [.nat ps, .nat pc, .bool g])
+  | .recover r => some (60, 110, [.bool r])
+  | .publish ex rk m i _ _ => some (60, 40, [.nat 0, .str ex, .str rk, .bool m, .bool i])
+  | .listenConfirms => none
+  | .listenReturns => none
+  | .confirmSelect nw => some (85, 10, [.bool nw])
+  | .queueDeclare q o => some (50, 10, [.nat 0, .str q, .bool false, .bool o.durable, .bool o.exclusive, .bool o.autoDelete, .bool false, .table o.args])
+  | .queueDeclareNowait q o => some (50, 10, [.nat 0, .str q, .bool false, .bool o.durable, .bool o.exclusive, .bool o.autoDelete, .bool true, .table o.args])
+  | .queueDeclarePassive q => some (50, 10, [.nat 0, .str q, .bool true, .bool false, .bool false, .bool false, .bool false, .table emptyTable])
+  | .get q na => some (60, 70, [.nat 0, .str q, .bool na])
+  | .consume q nl na ex args => some (60, 20, [.nat 0, .str q, .str [], .bool nl, .bool na, .bool ex, .bool false, .table args])
+  | .queueBind q e rk args nw => some (50, 20, [.nat 0, .str q, .str e, .str rk, .bool nw, .table args])
+  | .queueUnbind q e rk args => some (50, 50, [.nat 0, .str q, .str e, .str rk, .table args])
+  | .queuePurge q nw => some (50, 30, [.nat 0, .str q, .bool nw])
+  | .queueDelete q iu ie nw => some (50, 40, [.nat 0, .str q, .bool iu, .bool ie, .bool nw])
+  | .exchangeDeclare ty name o => some (40, 10, [.nat 0, .str name, .str ty, .bool false, .bool o.durable, .bool o.autoDelete, .bool o.internal, .bool false, .table o.args])
+  | .exchangeDeclareNowait ty name o => some (40, 10, [.nat 0, .str name, .str ty, .bool false, .bool o.durable, .bool o.autoDelete, .bool o.internal, .bool true, .table o.args])
+  | .exchangeDeclarePassive name => some (40, 10, [.nat 0, .str name, .str direct, .bool true, .bool false, .bool false, .bool false, .bool false, .table emptyTable])
+  | .exchangeBind d s rk args nw => some (40, 30, [.nat 0, .str d, .str s, .str rk, .bool nw, .table args])
+  | .exchangeUnbind d s rk args nw => some (40, 40, [.nat 0, .str d, .str s, .str rk, .bool nw, .table args])
+  | .exchangeDelete name iu nw => some (40, 20, [.nat 0, .str name, .bool iu, .bool nw])
+  | .ackAll => some (60, 80, [.nat 0, .bool true])
+  | .nackAll r => some (60, 120, [.nat 0, .bool true, .bool r])
+  | .ack _ dtag m => some (60, 80, [.nat dtag, .bool m])
+  | .nack _ dtag m r => some (60, 120, [.nat dtag, .bool m, .bool r])
+  | .reject _ dtag r => some (60, 90, [.nat dtag, .bool r])
+  | .cancel tag => some (60, 30, [.str tag, .bool false])
+  | .close => some (20, 40, [.nat 0, .str [], .nat 0, .nat 0])
+
+/-- The operation is one that panics instead of sending (an acknowledgement through a channel
+    other than the delivery's; an asynchronous declare of a server-named queue). -/
+def mustPanic (c : Chan) : Op → Bool
+  | .ack dch _ _ => dch != c.id
+  | .nack dch _ _ _ => dch != c.id
+  | .reject dch _ _ => dch != c.id
+  | .queueDeclareNowait q _ => q == []
+  | _ => false
+
+/-- EMIT = SPEC. With the I/O thread there, every operation (all ~30 kinds, all argument values)
+    that does not panic submits, first and on its own channel, exactly the method the table
+    prescribes — and nothing else, except that a publish is followed by its content frames and a
+    listener registration submits just the registration. A closed `Channel`'s second close submits
+    nothing. -/
+theorem emit_eq_spec (c : Chan) (op : Op) (hio : c.ioAlive = true) (hp : mustPanic c op = false)
+    (hcl : ¬(op = .close ∧ c.closed = true)) :
+    (run c op).1.sent = c.sent ++
+      (match op, specMethod op with
+       | .publish _ _ _ _ props body, some (cls, mid, fs) =>
+         Sent.send (.method c.id cls mid fs) :: (contentFrames c.id c.limit props body).map Sent.send
+       | .listenConfirms, _ => [Sent.setConfirm]
+       | .listenReturns, _ => [Sent.setReturn]
+       | _, some (cls, mid, fs) => [Sent.send (.method c.id cls mid fs)]
+       | _, none => []) := by
+  -- (the `match` was elaborated with `hp`, `hcl` as extra discriminants: reduce it first)
+  cases op with
+  | confirmSelect nw => cases nw <;> (simp only [specMethod]; alive_simp [mustPanic])
+  | queueBind q e rk args nw => cases nw <;> (simp only [specMethod]; alive_simp [mustPanic])
+  | queuePurge q nw => cases nw <;> (simp only [specMethod]; alive_simp [mustPanic])
+  | queueDelete q iu ie nw => cases nw <;> (simp only [specMethod]; alive_simp [mustPanic])
+  | exchangeBind d s rk args nw => cases nw <;> (simp only [specMethod]; alive_simp [mustPanic])
+  | exchangeUnbind d s rk args nw => cases nw <;> (simp only [specMethod]; alive_simp [mustPanic])
+  | exchangeDelete name iu nw => cases nw <;> (simp only [specMethod]; alive_simp [mustPanic])
+  | _ => (simp only [specMethod]; alive_simp [mustPanic])
+
+/-- Cross-channel acknowledgements panic and send nothing — for every acknowledging entry point. -/
+theorem cross_channel_panics (c : Chan) (op : Op) (hp : mustPanic c op = true) :
+    run c op = (c, .panic) := by
+  cases op <;> simp_all [mustPanic, run]
+
+/-- `nowait` is set exactly in the nowait variants, `passive` exactly in the passive variants
+    (read off the table; stated outright for the two declare families). -/
+theorem nowait_passive_flags (q : Bytes) (o : QueueDeclareOpts) (ty name : Bytes) (xo : ExchangeDeclareOpts) :
+    (specMethod (.queueDeclare q o)).map (fun m => (m.2.2[2]?, m.2.2[6]?)) = some (some (.bool false), some (.bool false)) ∧
+    (specMethod (.queueDeclareNowait q o)).map (fun m => (m.2.2[2]?, m.2.2[6]?)) = some (some (.bool false), some (.bool true)) ∧
+    (specMethod (.queueDeclarePassive q)).map (fun m => (m.2.2[2]?, m.2.2[6]?)) = some (some (.bool true), some (.bool false)) ∧
+    (specMethod (.exchangeDeclare ty name xo)).map (fun m => (m.2.2[3]?, m.2.2[7]?)) = some (some (.bool false), some (.bool false)) ∧
+    (specMethod (.exchangeDeclareNowait ty name xo)).map (fun m => (m.2.2[3]?, m.2.2[7]?)) = some (some (.bool false), some (.bool true)) ∧
+    (specMethod (.exchangeDeclarePassive name)).map (fun m => (m.2.2[3]?, m.2.2[7]?)) = some (some (.bool true), some (.bool false)) := by
+  simp [specMethod]
+
+/-- The nowait variants return without consuming any reply; the synchronous ones consume exactly
+    the reply at the head of the queue. -/
+def isNowait : Op → Bool
+  | .publish .. | .listenConfirms | .listenReturns | .confirmSelect true | .queueDeclareNowait ..
+  | .queueBind _ _ _ _ true | .queuePurge _ true | .queueDelete _ _ _ true | .exchangeDeclareNowait ..
+  | .exchangeBind _ _ _ _ true | .exchangeUnbind _ _ _ _ true | .exchangeDelete _ _ true
+  | .ackAll | .nackAll _ | .ack .. | .nack .. | .reject .. => true
+  | _ => false
+
+theorem nowait_consumes_no_reply (c : Chan) (op : Op) (hio : c.ioAlive = true) (hn : isNowait op = true) :
+    (run c op).1.replies = c.replies := by
+  cases op with
+  | confirmSelect nw => cases nw <;> alive_simp [isNowait]
+  | queueBind q e rk args nw => cases nw <;> alive_simp [isNowait]
+  | queuePurge q nw => cases nw <;> alive_simp [isNowait]
+  | queueDelete q iu ie nw => cases nw <;> alive_simp [isNowait]
+  | exchangeBind d s rk args nw => cases nw <;> alive_simp [isNowait]
+  | exchangeUnbind d s rk args nw => cases nw <;> alive_simp [isNowait]
+  | exchangeDelete name iu nw => cases nw <;> alive_simp [isNowait]
+  | _ => alive_simp [isNowait] <;> split <;> simp
+
+theorem sync_consumes_one_reply (c : Chan) (op : Op) (r : Rep) (rest : List Rep) (hio : c.ioAlive = true)
+    (hn : isNowait op = false) (hcl : ¬(op = .close ∧ c.closed = true)) (hq : c.replies = r :: rest) :
+    (run c op).1.replies = rest := by
+  cases op with
+  | confirmSelect nw => cases nw <;> alive_simp [isNowait]
+  | queueBind q e rk args nw => cases nw <;> alive_simp [isNowait]
+  | queuePurge q nw => cases nw <;> alive_simp [isNowait]
+  | queueDelete q iu ie nw => cases nw <;> alive_simp [isNowait]
+  | exchangeBind d s rk args nw => cases nw <;> alive_simp [isNowait]
+  | exchangeUnbind d s rk args nw => cases nw <;> alive_simp [isNowait]
+  | exchangeDelete name iu nw => cases nw <;> alive_simp [isNowait]
+  | _ => alive_simp [isNowait]
+
+/-- RETURN VALUES (C04): a synchronous call returns exactly what its reply carries. -/
+theorem declare_returns_reply_values (c : Chan) (q name : Bytes) (o : QueueDeclareOpts) (mc cc : Nat) (rest : List Rep)
+    (hio : c.ioAlive = true) (hq : c.replies = .method 50 11 [.str name, .nat mc, .nat cc] :: rest) :
+    (run c (.queueDeclare q o)).2 = .queue name (some mc) (some cc) ∧
+    (run c (.queueDeclarePassive q)).2 = .queue name (some mc) (some cc) := by
+  simp [run_queueDeclare, run_queueDeclarePassive, call_alive, hio, hq, callResult, retOfQueue]
+
+theorem purge_delete_return_counts (c : Chan) (q : Bytes) (n : Nat) (iu ie : Bool) (rest : List Rep) (hio : c.ioAlive = true) :
+    (c.replies = .method 50 31 [.nat n] :: rest → (run c (.queuePurge q false)).2 = .count n) ∧
+    (c.replies = .method 50 41 [.nat n] :: rest → (run c (.queueDelete q iu ie false)).2 = .count n) := by
+  constructor <;> intro hq <;>
+    simp [run_queuePurge_wait, run_queueDelete_wait, call_alive, hio, hq, callResult, retOfCount]
+
+theorem consume_returns_tag (c : Chan) (q args tag : Bytes) (nl na ex : Bool) (rest : List Rep) (hio : c.ioAlive = true)
+    (hq : c.replies = .consumeOk tag :: rest) :
+    (run c (.consume q nl na ex args)).2 = .consumer tag := by
+  simp [run_consume, handleSend_alive, handleRecv_eq, hio, hq, recvResult, retOfConsume]
+
+/-- A reply of another type is FrameUnexpected for that caller (and is consumed). -/
+theorem wrong_reply_type (c : Chan) (cls mid : Nat) (fs : List AField) (rest : List Rep) (q : Bytes) (hio : c.ioAlive = true)
+    (hq : c.replies = .method cls mid fs :: rest) (hne : ¬(cls = 50 ∧ mid = 31)) :
+    (run c (.queuePurge q false)).2 = .err .frameUnexpected := by
+  simp [run_queuePurge_wait, call_alive, hio, hq, callResult, hne]
+
+/-- When the I/O thread is gone every operation that would submit something fails with the queued
+    error, or EventLoopDropped — it never blocks and submits nothing. -/
+theorem io_gone_fails (c : Chan) (op : Op) (hio : c.ioAlive = false) (hp : mustPanic c op = false)
+    (hcl : ¬(op = .close ∧ c.closed = true)) (hq : c.replies = []) :
+    (run c op).2 = .err .eventLoopDropped ∧ (run c op).1.sent = c.sent := by
+  cases op with
+  | confirmSelect nw => cases nw <;> gone_simp [mustPanic]
+  | queueBind q e rk args nw => cases nw <;> gone_simp [mustPanic]
+  | queuePurge q nw => cases nw <;> gone_simp [mustPanic]
+  | queueDelete q iu ie nw => cases nw <;> gone_simp [mustPanic]
+  | exchangeBind d s rk args nw => cases nw <;> gone_simp [mustPanic]
+  | exchangeUnbind d s rk args nw => cases nw <;> gone_simp [mustPanic]
+  | exchangeDelete name iu nw => cases nw <;> gone_simp [mustPanic]
+  | _ => gone_simp [mustPanic]
+
+/-- PUBLISH ON THE WIRE (C02): the Publish method, one header announcing the body length with the
+    given properties, then body frames that concatenate to the body, each non-empty and at most
+    `limit` bytes — none for an empty body. -/
+theorem publish_frames (c : Chan) (ex rk props body : Bytes) (m i : Bool) (hio : c.ioAlive = true) (hl : 0 < c.limit) :
+    ∃ parts : List Bytes,
+      (run c (.publish ex rk m i props body)).1.sent = c.sent ++
+        Sent.send (.method c.id 60 40 [.nat 0, .str ex, .str rk, .bool m, .bool i]) ::
+        Sent.send (.header c.id 60 body.length props) :: parts.map (fun p => Sent.send (.body c.id p)) ∧
+      parts.flatten = body ∧ (∀ p ∈ parts, 0 < p.length ∧ p.length ≤ c.limit) ∧ (body = [] → parts = []) ∧
+      (run c (.publish ex rk m i props body)).2 = .unit := by
+  refine ⟨Split.splitBody c.limit body, ?_, C02.split_flatten c.limit hl body, C02.split_sizes c.limit hl body,
+    ?_, ?_⟩
+  · simp [run_publish, callNowait_alive, submitAll_alive, hio, contentFrames, List.map_map, Function.comp_def]
+  · intro hb
+    subst hb
+    exact C02.split_empty c.limit
+  · simp [run_publish, callNowait_alive, submitAll_alive, hio]
+
+/-- With the limit derived from a negotiated frame_max ≥ 4096 each body frame is at most frame_max
+    bytes on the wire. -/
+theorem publish_respects_frame_max (id frameMax : Nat) (hfm : 4096 ≤ frameMax) (ex rk props body : Bytes) (m i : Bool) :
+    ∀ s ∈ (run (newChan id frameMax) (.publish ex rk m i props body)).1.sent,
+      ∀ ch p, s = Sent.send (.body ch p) → p.length + 8 ≤ frameMax := by
+  have hlim : (newChan id frameMax).limit = frameMax - 8 := by
+    have : frameMax ≠ 0 := by omega
+    simp [newChan, Tune.payloadLimit, Tune.FRAME_OVERHEAD, this]
+  have hl : 0 < (newChan id frameMax).limit := by omega
+  obtain ⟨parts, hs, -, hsz, -, -⟩ := publish_frames (newChan id frameMax) ex rk props body m i rfl hl
+  intro s hmem ch p hsp
+  rw [hs] at hmem
+  subst hsp
+  simp [newChan] at hmem
+  obtain ⟨hp, -⟩ := hmem
+  have := (hsz p hp).2
+  omega
+
+/-- D7: the table says a reject through the wrong channel panics; so does the model of the repaired code. -/
+example : (run (newChan 2 4096) (.reject 1 5 false)).2 = .panic := by decide
 
 end AmqModel.Props.C12
